@@ -318,7 +318,7 @@ pub fn run(tier: Tier, seed: u64) -> ! {
             acc.merge(exhaustive_rw(seed, 3, 2, true, true, 1, "exhaustive.3tx_2ent_rw.blocks"));
         }
     }
-    acc.merge(random_rw(seed, tier.pick(600_000, 12_000_000)));
+    acc.merge(random_rw(seed, tier.pick(1_500_000, 12_000_000)));
     acc.into_report(&mut rep);
     session_plumbing(&mut rep);
 
